@@ -87,7 +87,7 @@ def static_classes():
 POOL = ['"existing.txt"', '"new.txt"', '"sub"', '"touch pwned.txt"', '"w"', '"a"', "1", "{}"]
 
 
-def call_chunk(path, tuples, req):
+def call_chunk(path, tuples, req, inner=None):
     """the function is obtained OUTSIDE the restricted context; the calls happen inside runtime.callcontext{flags=req}"""
     out = ["local f = %s" % path,
            "local function show(v) if type(v) == 'string' then return v end return type(v) end",
@@ -98,7 +98,16 @@ def call_chunk(path, tuples, req):
                    "if iotype(r[2]) == 'file' then pc(r[2].close, r[2]) end end" % ("".join(", " + a for a in t), i))
     out.append('  emit("alive")')
     out.append("end")
-    out.append('emit("ctx", runtime.callcontext({flags = "%s"}, body))' % " ".join(req))
+    if inner is None or inner.get("none"):
+        out.append('emit("ctx", runtime.callcontext({flags = "%s"}, body))' % " ".join(req))
+    else:
+        kill = []
+        if inner["cpu"]:
+            kill.append("cpu = 100000000")
+        if inner["mem"]:
+            kill.append("memory = 1000000000")
+        idef = '{flags = "%s"%s}' % (" ".join(sorted(inner["flags"])), (", kill = {%s}" % ", ".join(kill)) if kill else "")
+        out.append('emit("ctx", runtime.callcontext({flags = "%s"}, function() return runtime.callcontext(%s, body) end))' % (" ".join(req), idef))
     return "\n".join(out) + "\n"
 
 
@@ -139,10 +148,12 @@ def run(prop, tier):
         f.write("DeclaredC == <<%s>>\n" % ", ".join(tset(x["flags"]) for x in inv))
         f.write("ClassC == <<%s>>\n" % ", ".join('"%s"' % x["class"] for x in inv))
         f.write("ReqSetsC == {%s}\n" % ", ".join(tset(s) for s in allsets))
+        f.write('InnerDefsC == {[flags |-> {}, cpu |-> TRUE, mem |-> FALSE], [flags |-> {"memsafe"}, cpu |-> FALSE, mem |-> FALSE], '
+                '[flags |-> {}, cpu |-> FALSE, mem |-> TRUE], [flags |-> {"timesafe"}, cpu |-> FALSE, mem |-> FALSE], [flags |-> {}, cpu |-> FALSE, mem |-> FALSE]}\n')
         f.write("=============================================================================\n")
     cfgp = os.path.join(scratch(), "GateMC.cfg")
     with open(cfgp, "w") as f:
-        f.write("SPECIFICATION Spec\nINVARIANT RefusedBeforeEffect\nCHECK_DEADLOCK FALSE\nCONSTANTS\n  NFn = %d\n  Declared <- DeclaredC\n  Class <- ClassC\n  ReqSets <- ReqSetsC\n" % len(inv))
+        f.write("SPECIFICATION Spec\nINVARIANT RefusedBeforeEffect\nCHECK_DEADLOCK FALSE\nCONSTANTS\n  NFn = %d\n  Declared <- DeclaredC\n  Class <- ClassC\n  ReqSets <- ReqSetsC\n  InnerDefs <- InnerDefsC\n" % len(inv))
     lines = []
     res = run_tlc("GateMC", "GateMC.cfg", extra_files=[mc, cfgp], on_line=lines.append, timeout=900)
     if res.violation:
@@ -160,7 +171,10 @@ def run(prop, tier):
         f = inv[l["f"] - 1]
         if f["name"] == "exit" and l["exp"] == "runs":
             continue    # os.exit would end the driver itself
-        cases.append({"id": len(cases), "src": call_chunk(f["path"], tuples, sorted(l["req"])), "sandbox": True,
+        nested = not l["inner"].get("none")
+        if nested and tier == "quick" and f["class"] == "pure" and (l["f"] % 7) != 0:
+            continue   # quick tier: nested contexts for every function that can reach the outside, and a sample of the pure ones
+        cases.append({"id": len(cases), "src": call_chunk(f["path"], tuples if not nested else tuples[:12], sorted(l["outer"]), l["inner"]), "sandbox": True,
                       "timeout": 20000, "maxev": 100000})
         meta.append((f, l))
     outs = run_lua_cases(drv, cases, nproc=max(2, NCPU // 2))
@@ -182,7 +196,7 @@ def run(prop, tier):
             if l["exp"] == "flag-error":
                 if not alive:
                     why = ("context-not-alive", o.get("errstr", "")[:200])
-                elif any(e[1] is not False for e in calls) or len(calls) != len(tuples):
+                elif any(e[1] is not False for e in calls) or len(calls) != (len(tuples) if l["inner"].get("none") else min(12, len(tuples))):
                     why = ("not-refused", "a call with required flags %s succeeded or did not fail ordinarily" % req)
                 elif o.get("fs_changes"):
                     why = ("effect-before-refusal", str(o["fs_changes"]))
@@ -192,7 +206,7 @@ def run(prop, tier):
                 elif not alive and not (o.get("status") == "killed"):
                     pass   # the function may legitimately raise out of pcall? no: pcall catches everything but kills
         if why:
-            rep.violation({"kind": why[0], "fn": f["name"], "req": "+".join(req)},
+            rep.violation({"kind": why[0], "fn": f["name"], "req": "+".join(req), "nested": not l["inner"].get("none")},
                           {"cmd": "lua-run", "src": cases[i]["src"][:3000], "flags": req, "function": f, "observed": {k: v for k, v in o.items() if k != "events"},
                            "why": why[1], "static_class": f["class"]})
     rep.sample({"function": inv[0], "required": allsets[1], "argument_tuples": len(tuples)})
